@@ -181,3 +181,29 @@ partial def tree? : Sexp → Except String Tree
   | other => .error s!"bad tree {other.toStr.take 60}"
 
 end Iwe.Codec
+
+namespace Iwe.Codec
+open Iwe Sexp
+
+mutual
+partial def gblock? : Sexp → Except String GBlock
+  | .list [.atom "plain", xs] => do return .plain (← il? xs)
+  | .list [.atom "para", xs] => do return .para (← il? xs)
+  | .list [.atom "code", l, .str t] => do return .code (← optStr? l) t
+  | .list (.atom "quote" :: bs) => do return .quote (← bs.mapM gblock?)
+  | .list (.atom "olist" :: its) => do return .olist (← its.mapM gitem?)
+  | .list (.atom "blist" :: its) => do return .blist (← its.mapM gitem?)
+  | .list [.atom "header", l, xs] => do return .header (← nat? l) (← il? xs)
+  | .atom "rule" => .ok .rule
+  | .list [.atom "table", .list (.atom "head" :: h), .list (.atom "align" :: al), .list (.atom "rows" :: rows)] => do
+    let rows ← rows.mapM fun r => match r with
+      | .list (.atom "row" :: cells) => cells.mapM il?
+      | _ => .error "bad row"
+    return .table (← h.mapM il?) (← al.mapM align?) rows
+  | other => .error s!"bad gblock {other.toStr.take 60}"
+partial def gitem? : Sexp → Except String (List GBlock)
+  | .list (.atom "item" :: bs) => bs.mapM gblock?
+  | _ => .error "bad item"
+end
+
+end Iwe.Codec
